@@ -45,6 +45,9 @@ def run_property(prop, tier, repo):
     if tier == "thorough":
         for extra in spec.get("thorough", []):
             extra(R, repo)
+        if os.environ.get("VERIF_NO_MUTANTS") != "1" and repo == "/repo":
+            import extras
+            extras.mutant_selftest(R, repo, prop)
     return R
 
 
